@@ -355,6 +355,13 @@ impl GlobalScheduler {
         // potentially see a torn read if the simulator increments time
         // concurrently. The chances of this happening are very small since
         // simulation time is not changed frequently.
+        #[cfg(feature = "verif-hooks")]
+        {
+            let time = self.time.read();
+            crate::verif_hooks::delay(crate::verif_hooks::site::Q1);
+            return time;
+        }
+        #[cfg(not(feature = "verif-hooks"))]
         self.time.read()
     }
 
